@@ -44,7 +44,10 @@ IRRELEVANT_SUBDOMAIN_PATTERN = r"(?:^|(?<=\.))(?:www\d?|mobile%s|m)\."
 AMP_QUERY_PATTERN = r"|amp_.+|amp"
 AMP_QUERY_COMBOS = {"outputtype": ("amp",)}
 AMP_SUBDOMAIN_PATTERN = r"|amp"
-AMP_SUFFIXES_RE = re.compile(r"(?:\.amp(?=\.html$)|\.amp/?$|(?<=/)amp/?$)", re.I)
+# NOTE: ".amp" is the suffix of a file name, "..amp" must not leave a dot segment
+AMP_SUFFIXES_RE = re.compile(
+    r"(?:(?<=[^./])\.amp(?=\.html$)|(?<=[^./])\.amp/?$|(?<=/)amp/?$)", re.I
+)
 
 IRRELEVANT_QUERY_RE = re.compile(IRRELEVANT_QUERY_PATTERN % r"", re.I)
 IRRELEVANT_SUBDOMAIN_RE = re.compile(IRRELEVANT_SUBDOMAIN_PATTERN % r"", re.I)
